@@ -20,7 +20,8 @@ def gen_cases(run, module, cfg, name=None, workers=None, timeout=3000, simulate=
 def replay_load(run, cases, trace_module, trace_cfg, build_features=("json",), variant="json", fmt="json",
                 skip_icu=False, tag="", per_case_timeout=20, key_of=None, perm_seed=None, keep_dirs=False,
                 trace_env=None):
-    """cases: list of case dicts (ids are assigned here, 1-based = line numbers of cases.ndjson)."""
+    """cases: list of case dicts; each becomes a project directory parsed with parse_locales.
+    A case with a "mode": "value" field is instead sent to ParsedValue::new (field "s")."""
     wd = os.path.join(run.workdir, "load" + tag)
     shutil.rmtree(wd, ignore_errors=True)
     os.makedirs(wd)
@@ -28,11 +29,15 @@ def replay_load(run, cases, trace_module, trace_cfg, build_features=("json",), v
     rows = []
     for i, c in enumerate(cases):
         c["id"] = i + 1
+        if c.get("mode") == "value":
+            rows.append({"case": i + 1, "mode": "value", "s": c["s"]})
+            continue
         d = os.path.join(wd, "p%05d" % (i + 1))
         vp.materialise(c, d, fmt=fmt, perm_seed=perm_seed)
         rows.append({"case": i + 1, "mode": "load", "dir": d, "skip_icu": skip_icu})
     cases_path = os.path.join(wd, "cases.ndjson")
-    vp.write_ndjson(cases_path, cases)
+    # the trace spec only needs the abstract part of a case
+    vp.write_ndjson(cases_path, [{"id": c["id"], "abs": c.get("abs")} for c in cases])
     drv_in = os.path.join(wd, "drv_in.ndjson")
     vp.write_ndjson(drv_in, rows)
     trace_path = os.path.join(wd, "trace.ndjson")
@@ -43,17 +48,21 @@ def replay_load(run, cases, trace_module, trace_cfg, build_features=("json",), v
     run.traces += len(rows)
     run.events += summary["events"]
     run.cases += len(rows)
-    events = {e["case"]: e for e in vp.read_ndjson(trace_path) if e.get("ev") in ("Load", "Crash", "Value")}
+    events = {}
+    if rejects:
+        events = {e["case"]: e for e in vp.read_ndjson(trace_path) if e.get("ev") in ("Load", "Crash", "Value")}
     for r in rejects:
         c = cases[r["case"] - 1]
         key = key_of(c, r) if key_of else vp.fingerprint({"abs": c.get("abs"), "tags": sorted(r["tags"])[:1]})
         ev = events.get(r["case"])
         run.violation(key, "case %d tags %s" % (r["case"], sorted(r["tags"])[:6]),
-                      {"case": c, "tags": sorted(r["tags"]), "event": _shrink(ev), "trace_module": trace_module,
+                      {"case": _shrink(c, 60000), "tags": sorted(r["tags"])[:50], "event": _shrink(ev), "trace_module": trace_module,
                        "dir": os.path.join(wd, "p%05d" % r["case"])})
-    if not keep_dirs and not rejects:
+    if not keep_dirs:
+        bad = {r["case"] for r in rejects}
         for i in range(len(cases)):
-            shutil.rmtree(os.path.join(wd, "p%05d" % (i + 1)), ignore_errors=True)
+            if (i + 1) not in bad:
+                shutil.rmtree(os.path.join(wd, "p%05d" % (i + 1)), ignore_errors=True)
     return summary, rejects, crashes
 
 
